@@ -30,7 +30,7 @@ def _scenario(seed, workdir):
                 self.kernel.on_popen = self._on_popen
 
     rng = random.Random(seed)
-    pool = ["a", "b", "c", "x-y"]
+    pool = ["a", "b", "c", "x-y", "Web"]
     ws = [(n, rng.choice([1, 2]), rng.choice([0, 1]), 1, False) for n in rng.sample(pool, rng.choice([1, 2]))]
     if rng.random() < 0.4:
         ws[0] = (ws[0][0], rng.choice([0, 1]), ws[0][2], 1, True)          # a singleton watcher
